@@ -200,6 +200,19 @@ func c14Run(cfg *C14Cfg, ch vs.Chooser, trace bool) (*Outcome, *vs.Result) {
 			out.Obs = strings.Join(obs, " ")
 			return
 		}
+		// a replica can be attached only while it is closed: of several overlapping open requests on a closed replica at
+		// most one is told that it opened it (the attach protocol of backend/remote relies on the answer)
+		if cfg.State == "closed" {
+			opened := 0
+			for k, r := range runs {
+				if cfg.Reqs[k] == "open" && r.status/100 == 2 {
+					opened++
+				}
+			}
+			if opened > 1 {
+				viol("attached-twice", "%d overlapping open requests were all answered with success: %s", opened, strings.Join(obs, " "))
+			}
+		}
 		if !srv.VerifTryLock() {
 			viol("lock-left-held", "the replica server lock is still held after %s", strings.Join(obs, " "))
 		} else if r := srv.Replica(); r != nil && !r.VerifTryLock() {
@@ -252,6 +265,22 @@ func c14Configs(tier string) []C14Cfg {
 }
 
 func checkC14conc() int { return checkSimple("C14", "C14conc", "C14-conc.part") }
+
+// c17OpenConfigs (part C17open of C17): overlapping requests on a CLOSED replica through the real router - open against
+// open, start, revert, delete and the reads: a replica is attached at most once.
+func c17OpenConfigs(tier string) []C14Cfg {
+	var out []C14Cfg
+	for _, c := range c14Configs(tier) {
+		if c.State == "closed" {
+			c.Name = "closed"
+			out = append(out, c)
+		}
+	}
+	out = append(out, C14Cfg{Name: "closed", State: "closed", Reqs: []string{"open", "open", "open"}})
+	return out
+}
+
+func checkC17Open() int { return checkSimple("C17", "C17open", "C17-open.part") }
 
 // ---------------------------------------------------------------------------------------------------------------
 // controller side: overlapping requests on the real controller/rest router
